@@ -13,7 +13,7 @@ META = {
             "the harness: response i gets the command code and the encrypt request of command i.",
     "bounds": {"quick": "1- and 2-pair streams over 14 seed-rotated command codes + core", "thorough": "all command codes, 3-pair mixes"},
     "outside": "streams of more than 3 pairs; message boundaries other than the ones the messages' own size fields give",
-    "wall_budget_s": {"quick": 250, "thorough": 1500},
+    "wall_budget_s": {"quick": 250, "thorough": 1200},
 }
 CORE = ("Startup", "GetRandom", "StartAuthSession")
 
@@ -24,6 +24,9 @@ def stream_vs_singles(cfg, b):
 
     assume_leaves(cfg, b)
     lens = cfg["lens"]
+    if cfg.get("cc_in"):
+        v = int.from_bytes(b[6:10], "big")
+        assume(any([v == c for c in cfg["cc_in"]]))
     s = decode_full(CommandResponseStream, b, True)
     if s.crash is not None:
         note("stream-crash")
@@ -115,6 +118,27 @@ def partitions(tier, seed):
         if "sess1" in label:
             parts.append(mk(label + "/attrs", [(c, (sp.cmd_key(), None, None)), (r, (sp.rsp_key(), cc, enc))], attrs=True))
         parts.append(mk(label + "/cmd-only", [(c, (sp.cmd_key(), None, None))]))
+    # systematic: an encrypting pair followed by a session-less pair whose response starts with a TPM2B (the
+    # response-encryption request must not leak from one pair into the next), and the reverse order
+    encp = [x for x in pairs if x[4]]
+    plain = [x for x in pairs if x[0].endswith("-nosess+nosess") and G.first_is_tpm2b(sp.L()["cc"][str(x[1])]["rp"])]
+    for e in encp[: (4 if quick else len(encp))]:
+        for q in plain[: (3 if quick else len(plain))]:
+            for first, second in ((e, q), (q, e)):
+                msgs = []
+                for label, cc, c, r, enc in (first, second):
+                    msgs += [(c, (sp.cmd_key(), None, None)), (r, (sp.rsp_key(), cc, enc))]
+                parts.append(mk("%s>>%s" % (first[0], second[0]), msgs))
+    # the command code itself symbolic: commands without handles and parameters followed by a failed response
+    # (header-only for every code) - the stream must pair the response with whichever code the solver picks
+    empty = [cc for cc in sp.cc_list() if not sp.L()["types"][sp.L()["cc"][str(cc)]["ch"]]["fields"]
+             and not sp.L()["types"][sp.L()["cc"][str(cc)]["cp"]]["fields"]]
+    if empty:
+        c = G.commands(empty[0], minimal=True)[0][1]
+        r = [x for x in G.responses(empty[0], minimal=True) if x[0] == "fail"][0][2]
+        data = c + r
+        parts.append(sp.M("harness.c09:stream_vs_singles", "C09", sp.stream_key(), "symbolic-command-code+fail", data, [6, 7, 8, 9],
+                          budget=120, cfg={"lens": [len(c), len(r)], "cc_in": empty}))
     # two (thorough: three) pairs mixed
     import random
 
